@@ -53,3 +53,22 @@ def histories(depth=2, limit=None):
             n += 1
             if limit and n >= limit:
                 return
+
+
+def seam_histories(full=False):
+    """Seam configurations for concatenation: a left operand 'abc' with three settings (values from
+    {red, blue, green}, equal values allowed) applied in every order with every start and all running to
+    the end of the text - so that they stop together exactly at the seam, in every stop order - and a
+    right operand 'xy' that starts with every ordered selection of one or two of the values (or red, blue,
+    red); then a + b and a probe (result + 'Z').  quick: the lefts with an equal-valued pair whose starts
+    are a permutation of 0,1,2 (126 x 10); thorough: all 729 x 10."""
+    vals = ['red', 'blue', 'green']
+    rights = [[a] for a in vals] + [[a, b] for a in vals for b in vals if a != b] + [['red', 'blue', 'red']]
+    for f in itertools.product(vals, repeat=3):
+        for st in itertools.product([0, 1, 2], repeat=3):
+            interesting = len(set(f)) < 3 and sorted(st) == [0, 1, 2]
+            if not full and not interesting:
+                continue
+            left = [['new', 0, 'abc', []]] + [['apply', 0, ['str', f[k]], st[k], None, True] for k in range(3)]
+            for r in rights:
+                yield left + [['new', 0, 'xy', [['str', x] for x in r]], ['add', 0, ['obj', 1]], ['add', 2, ['str', 'Z']]]
